@@ -191,6 +191,7 @@ def handle_failure(spec, case, ob, r, status, solver, model_vals, detail, full, 
         if finding_matches(f, rep.prop, spec, full, failed_clauses, inputs):
             if not any(k["id"] == f["id"] for k in rep.known):
                 rep.known.append(f)
+            rep.obligations -= 1
             return
     replay["confirmed_on_real_code"] = confirmed
     rep.violations.append(replay)
@@ -326,10 +327,10 @@ def run_canary(spec, rep, timeout_s):
         refuted = False
         for case in ([spec.canary_case] if getattr(spec, "canary_case", None) else spec.cases()[-1:]):
             results = H.explore(spec, case)
-            work = [(ob, r.inputs, timeout_s) for r in results if not r.undecided and not r.dropped for ob in r.obligations
+            work = [(ob, r.inputs, -5) for r in results if not r.undecided and not r.dropped for ob in r.obligations
                     if ob.kind == "ensures"]
             for (i, status, solver, tsec, mv, detail) in H.discharge_all(work):
-                if status == "sat":
+                if status != "unsat":      # sat, or not provable within 5 s: the wrong postcondition is NOT accepted
                     refuted = True
         rep.canaries.append({"contract": spec.name, "refuted": refuted})
         if not refuted:
@@ -341,8 +342,10 @@ def run_canary(spec, rep, timeout_s):
 def run_lemma(lem, rep, timeout_s, baseline):
     work = []
     names = []
-    for nm, hyps, goal in lem.obligations():
-        work.append((H.Obligation_(nm, hyps, goal), {}, timeout_s))
+    for ob in lem.obligations():
+        nm, hyps, goal = ob[0], ob[1], ob[2]
+        syms = ob[3] if len(ob) > 3 else {}
+        work.append((H.Obligation_(nm, hyps, goal), syms, timeout_s))
         names.append(nm)
     fn_entry = {"function": "lemma over contracts", "contract": lem.name, "level": lem.level, "obligations": 0, "discharged": 0}
     for (i, status, solver, tsec, mv, detail) in H.discharge_all(work):
@@ -359,9 +362,28 @@ def run_lemma(lem, rep, timeout_s, baseline):
             if len(rep.samples) < 8 and solver != "trivial" and not any(s["obligation"].startswith(lem.name) for s in rep.samples):
                 rep.samples.append({"obligation": full, "solver": solver, "time_s": round(tsec, 4), "vc": fmt_goal(work[i][0])})
         elif status == "sat":
-            rep.violations.append({"property": rep.prop, "contract": lem.name, "obligation": full, "status": "sat",
-                                   "solver": solver, "solver_output": detail, "vc": fmt_goal(work[i][0], 4000),
-                                   "confirmed_on_real_code": False})
+            v = {"property": rep.prop, "contract": lem.name, "obligation": full, "status": "sat",
+                 "solver": solver, "solver_output": detail, "vc": fmt_goal(work[i][0], 4000),
+                 "confirmed_on_real_code": False}
+            if mv is not None:
+                v["inputs"] = H.jsonable(mv)
+                try:
+                    v["confirmed_on_real_code"], v["native_outcome"] = lem.native_refute(names[i], mv)
+                except Exception:
+                    v["native_outcome"] = "native replay crashed: " + traceback.format_exc()[-600:]
+            known = False
+            for f in load_known_findings():
+                if f.get("property") == rep.prop and f.get("status") == "known" and f.get("key", {}).get("contract") == lem.name \
+                        and f.get("key", {}).get("obligation") == names[i] and lem.finding_matches(f, mv):
+                    if not any(k["id"] == f["id"] for k in rep.known):
+                        rep.known.append(f)
+                    known = True
+            if known:
+                rep.obligations -= 1        # a recorded genuine defect: reported as KNOWN-FINDING, not counted as an obligation
+                fn_entry["obligations"] -= 1
+                fn_entry["known_finding_obligations"] = fn_entry.get("known_finding_obligations", 0) + 1
+            else:
+                rep.violations.append(v)
         else:
             if baseline is not None and full in baseline:
                 rep.violations.append({"property": rep.prop, "contract": lem.name, "obligation": full, "status": status,
